@@ -45,6 +45,9 @@ def gen_scenario(rng, opts=None):
         ops = []
         for _o in range(rng.randint(1, 2) if exec_heavy else rng.randint(1, 3)):
             c = rng.random() * (0.5 if exec_heavy else 1.0)
+            if opts.get("del_heavy"):
+                # registry-changing calls against each other: c in [0.3, 0.67) = del / dtags / sch
+                c = 0.3 + rng.random() * 0.37 if rng.random() < 0.8 else rng.random()
             if c < 0.3:
                 ops.append({"op": "exec", "force": rng.random() < 0.2})
             elif c < 0.45:
